@@ -7,16 +7,18 @@ import Mathlib.Topology.Algebra.Order.Floor
 /-!
 # C18 theorems, part 4: the 2-D voxelizer marks exactly the cells its primitives meet
 
-`Model.Vox.voxelize` is the transliteration of `VoxelizedVolume::voxelize` (`parry2d-f64`).  The theorems are about the
-modes in which a cell is marked by the segment/box SAT test and the fill never rewrites a surface cell
-(`PlainMode`: `detect_self_intersections = false`, and `SurfaceOnly` or `FloodFill { detect_cavities: false }`), on
-inputs that do not hit a panic site (`panic = false`: all primitive indices in range and both `assert!`s hold).
+`Model.Vox.voxelize` is the transliteration of `VoxelizedVolume::voxelize` (`parry2d-f64`).  The theorems cover the marking
+mode `detect_self_intersections = false` (cells are marked by the segment/box SAT test) in **all three** fill modes
+(`SurfaceOnly`, `FloodFill { detect_cavities: false }`, `FloodFill { detect_cavities: true }` — none of them changes which
+cells are surface cells), on inputs that do not hit a panic site (`panic = false`: all primitive indices in range and
+both `assert!`s hold; `vox_no_panic` proves this for every valid input).
 
-* `vox_surface_iff`, `vox_map_exact` — instance-generic (the test is a black box): a cell is `PrimitiveOnSurface` in the
-  result iff some primitive has the cell in its candidate range with a positive test; `primitive_intersections` lists,
-  in primitive order, exactly those (cell, primitive) pairs.
-* `vox_meets_imp_surface`, `vox_points_covered`, `vox_surface_meets` — at the lawful instance (`fieldNum K sq`,
-  `LawfulSqrt sq`, `x as u32` = `fieldCast tr` with `LawfulTrunc tr`), in world coordinates.
+* `vox_surface_iff`, `vox_map_exact`, `vox_params`, `vox_fuel_ok`, `vox_fill_spec` — instance-generic (the test is a black
+  box): a cell is `PrimitiveOnSurface` in the result iff some primitive has the cell in its candidate range with a
+  positive test; `primitive_intersections` lists, in primitive order, exactly those (cell, primitive) pairs; the loops
+  stay within their fuel; in plain flood-fill mode the inside is exactly the set of enclosed cells.
+* `vox_meets_imp_surface`, `vox_points_covered`, `vox_surface_meets`, `vox_no_panic` — at the lawful instance
+  (`fieldNum K sq`, `LawfulSqrt sq`, `x as u32` = `fieldCast tr` with `LawfulTrunc tr`), in world coordinates.
 -/
 set_option linter.style.haveILetI false
 set_option linter.unusedSectionVars false
@@ -24,9 +26,6 @@ set_option linter.unusedVariables false
 set_option linter.unusedSimpArgs false
 namespace C18
 open Model Model.Vox
-
-/-- `detect_self_intersections = false`, and `SurfaceOnly` or `FloodFill { detect_cavities: false }` -/
-def PlainMode (cfg : Cfg) : Prop := cfg.detectSelfInter = false ∧ (cfg.flood = false ∨ cfg.detectCavities = false)
 
 section generic
 variable {K : Type} [Num K] [Cast K]
@@ -39,22 +38,27 @@ private theorem gridParams_dims (res : Nat) (hres : 1 ≤ res) (mn mx : V2 K) :
   · exact ⟨hres, by show 1 ≤ 2 + _; omega⟩
   · exact ⟨by show 1 ≤ 2 + _; omega, hres⟩
 
-/-- in `PlainMode` the fill leaves the surface cells alone and the loops stay within their fuel -/
-private theorem fill_surf_iff (cfg : Cfg) (hmode : PlainMode cfg) (ni nj : Nat) (hi : 1 ≤ ni) (hj : 1 ≤ nj) (g : Array VV)
+/-- in every fill mode the set of surface cells is left alone and the loops stay within their fuel -/
+private theorem fill_surf_iff (cfg : Cfg) (ni nj : Nat) (hi : 1 ≤ ni) (hj : 1 ≤ nj) (g : Array VV)
     (hs : g.size = ni * nj) (hv : ∀ p, InB ni nj p → getC ni g p = .undef ∨ getC ni g p = .surf) :
-    (fill cfg ni nj g).2 = true ∧ ∀ p, InB ni nj p → (getC ni (fill cfg ni nj g).1 p = .surf ↔ getC ni g p = .surf) := by
+    (fill cfg ni nj g).2 = true ∧
+    ∀ p, InB ni nj p → (getC ni (fill cfg ni nj g).1 p = .surf ↔ getC ni g p = .surf) := by
+  refine ⟨fill_fuel_all cfg ni nj g hs, ?_⟩
   by_cases hf : cfg.flood = true
-  · have hc : cfg.detectCavities = false := by
-      rcases hmode.2 with h | h
-      · rw [hf] at h; cases h
-      · exact h
-    obtain ⟨a1, _, a3⟩ := fill_spec cfg hf hc ni nj hi hj g hs hv
-    exact ⟨a1, fun p hp => (a3 p hp).1⟩
+  · by_cases hc : cfg.detectCavities = true
+    · intro p hp
+      have := fill_cav_surf_iff cfg hf hc ni nj g (idx ni p.1 p.2)
+      unfold getC
+      rw [this]
+      rcases hv p hp with v | v <;> (unfold getC at v; rw [v]; simp [isSC])
+    · have hc' : cfg.detectCavities = false := by simpa using hc
+      obtain ⟨_, _, a3⟩ := fill_spec cfg hf hc' ni nj hi hj g hs hv
+      exact fun p hp => (a3 p hp).1
   · have hf' : cfg.flood = false := by simpa using hf
     have e : fill cfg ni nj g = (g.map fun v => if v ≠ .surf then .outside else v, true) := by
       unfold fill; simp [hf']
     rw [e]
-    refine ⟨rfl, fun p hp => ?_⟩
+    intro p hp
     simp only []
     rw [getC_map ni nj g _ hs p hp]
     split_ifs with h
@@ -65,7 +69,7 @@ private theorem fill_surf_iff (cfg : Cfg) (hmode : PlainMode cfg) (ni nj : Nat) 
 
 /-- the result of `voxelize` in terms of the marking loop: same grid parameters and `primitive_intersections`; the surface
 cells are those of the marking phase -/
-private theorem voxelize_plain (cfg : Cfg) (hmode : PlainMode cfg) (res : Nat) (hres : 1 ≤ res) (p0 : V2 K) (ps : List (V2 K))
+private theorem voxelize_plain (cfg : Cfg) (hsi : cfg.detectSelfInter = false) (res : Nat) (hres : 1 ≤ res) (p0 : V2 K) (ps : List (V2 K))
     (edges : List (Nat × Nat)) (hp : (voxelize cfg res (p0 :: ps) edges).1.panic = false) :
     (markAll cfg res (p0 :: ps) edges).panic = false ∧
     (voxelize cfg res (p0 :: ps) edges).2 = true ∧
@@ -87,23 +91,22 @@ private theorem voxelize_plain (cfg : Cfg) (hmode : PlainMode cfg) (res : Nat) (
   · have hpm' : (markAll cfg res (p0 :: ps) edges).panic = false := by simpa using hpm
     rw [hvox, if_neg hpm]
     have hm := markAll_eq cfg res p0 ps edges
-    obtain ⟨s1, s2, s3, s4, s5⟩ := markFrom_spec cfg hmode.1 (p0 :: ps).toArray edges (cloudAabb p0 ps).1
+    obtain ⟨s1, s2, s3, s4, s5⟩ := markFrom_spec cfg hsi (p0 :: ps).toArray edges (cloudAabb p0 ps).1
       (gridParams res (cloudAabb p0 ps).1 (cloudAabb p0 ps).2).2.2.1 (gridParams res (cloudAabb p0 ps).1 (cloudAabb p0 ps).2).2.2.2
       (gridParams res (cloudAabb p0 ps).1 (cloudAabb p0 ps).2).1 (gridParams res (cloudAabb p0 ps).1 (cloudAabb p0 ps).2).2.1
     rw [← hm] at s1 s2 s3 s4 s5
     obtain ⟨g1, _, _, _⟩ := s5 hpm'
     obtain ⟨d1, d2⟩ := gridParams_dims res hres (cloudAabb p0 ps).1 (cloudAabb p0 ps).2
-    obtain ⟨f1, f2⟩ := fill_surf_iff cfg hmode _ _ (by rw [s1]; exact d1) (by rw [s2]; exact d2) _ g1.size g1.vals
+    obtain ⟨f1, f2⟩ := fill_surf_iff cfg _ _ (by rw [s1]; exact d1) (by rw [s2]; exact d2) _ g1.size g1.vals
     exact ⟨hpm', f1, rfl, rfl, rfl, rfl, rfl, f2⟩
 
-/-- **vox_surface_iff** (`PlainMode`, no panic; any `Num`/`Cast` instance).  In the volume returned by `voxelize`, an
+/-- **vox_surface_iff** (`detect_self_intersections = false`, every `FillMode`, no panic; any `Num`/`Cast` instance).  In the volume returned by `voxelize`, an
 in-grid cell `q` is `PrimitiveOnSurface` **iff** there is a primitive `k` (`edges[k] = e`, end points `a`, `b` exist) such
 that `q` lies in the candidate range computed from the cells of the two end points (`segCells`) and
 `intersection_test_aabb_segment(cell q, segment)` is `true` (`cellHit`), both in grid coordinates
-`(p − origin) · inv_scale`.  The fuel flag is `true`. -/
-theorem vox_surface_iff (cfg : Cfg) (hmode : PlainMode cfg) (res : Nat) (hres : 1 ≤ res) (p0 : V2 K) (ps : List (V2 K))
+`(p − origin) · inv_scale`. -/
+theorem vox_surface_iff (cfg : Cfg) (hsi : cfg.detectSelfInter = false) (res : Nat) (hres : 1 ≤ res) (p0 : V2 K) (ps : List (V2 K))
     (edges : List (Nat × Nat)) (hp : (voxelize cfg res (p0 :: ps) edges).1.panic = false) :
-    (voxelize cfg res (p0 :: ps) edges).2 = true ∧
     ∀ q, InB (voxelize cfg res (p0 :: ps) edges).1.ni (voxelize cfg res (p0 :: ps) edges).1.nj q →
       (getC (voxelize cfg res (p0 :: ps) edges).1.ni (voxelize cfg res (p0 :: ps) edges).1.vals q = .surf ↔
         ∃ (k : Nat) (e : Nat × Nat) (a b : V2 K), edges[k]? = some e ∧ (p0 :: ps)[e.1]? = some a ∧ (p0 :: ps)[e.2]? = some b ∧
@@ -112,14 +115,14 @@ theorem vox_surface_iff (cfg : Cfg) (hmode : PlainMode cfg) (res : Nat) (hres : 
             (gridPt (cloudAabb p0 ps).1 (gridParams res (cloudAabb p0 ps).1 (cloudAabb p0 ps).2).2.2.2 b) ∧
           cellHit (gridPt (cloudAabb p0 ps).1 (gridParams res (cloudAabb p0 ps).1 (cloudAabb p0 ps).2).2.2.2 a)
             (gridPt (cloudAabb p0 ps).1 (gridParams res (cloudAabb p0 ps).1 (cloudAabb p0 ps).2).2.2.2 b) q = true) := by
-  obtain ⟨v1, v2, v3, v4, v5, v6, v7, v8⟩ := voxelize_plain cfg hmode res hres p0 ps edges hp
+  obtain ⟨v1, v2, v3, v4, v5, v6, v7, v8⟩ := voxelize_plain cfg hsi res hres p0 ps edges hp
   have hm := markAll_eq cfg res p0 ps edges
-  obtain ⟨s1, s2, s3, s4, s5⟩ := markFrom_spec cfg hmode.1 (p0 :: ps).toArray edges (cloudAabb p0 ps).1
+  obtain ⟨s1, s2, s3, s4, s5⟩ := markFrom_spec cfg hsi (p0 :: ps).toArray edges (cloudAabb p0 ps).1
     (gridParams res (cloudAabb p0 ps).1 (cloudAabb p0 ps).2).2.2.1 (gridParams res (cloudAabb p0 ps).1 (cloudAabb p0 ps).2).2.2.2
     (gridParams res (cloudAabb p0 ps).1 (cloudAabb p0 ps).2).1 (gridParams res (cloudAabb p0 ps).1 (cloudAabb p0 ps).2).2.1
   rw [← hm] at s1 s2 s3 s4 s5
   obtain ⟨_, _, t3, _⟩ := s5 v1
-  refine ⟨v2, fun q hq => ?_⟩
+  intro q hq
   rw [v3, v4] at hq ⊢
   rw [v8 q hq]
   have hq' := hq
@@ -132,28 +135,28 @@ theorem vox_surface_iff (cfg : Cfg) (hmode : PlainMode cfg) (res : Nat) (hres : 
   · rintro ⟨k, e, a, b, hk, ha, hb, h1, h2⟩
     exact ⟨(e, k), List.mem_zipIdx_iff_getElem?.mpr hk, a, b, by simpa using ha, by simpa using hb, h1, h2⟩
 
-/-- **vox_map_exact** (`PlainMode`, no panic).  `primitive_intersections` of the returned volume is, in primitive order,
+/-- **vox_map_exact** (`detect_self_intersections = false`, every `FillMode`, no panic).  `primitive_intersections` of the returned volume is, in primitive order,
 the list of `(voxel_index(c), k)` for the candidate cells `c` of primitive `k` with a positive test (and is empty when
 `keep_voxel_to_primitives_map` is off): the voxel-to-primitive map lists exactly the (cell, primitive) pairs that made
 the cell a surface cell — nothing else, nothing missing, each pair once per candidate occurrence. -/
-theorem vox_map_exact (cfg : Cfg) (hmode : PlainMode cfg) (res : Nat) (hres : 1 ≤ res) (p0 : V2 K) (ps : List (V2 K))
+theorem vox_map_exact (cfg : Cfg) (hsi : cfg.detectSelfInter = false) (res : Nat) (hres : 1 ≤ res) (p0 : V2 K) (ps : List (V2 K))
     (edges : List (Nat × Nat)) (hp : (voxelize cfg res (p0 :: ps) edges).1.panic = false) :
     (voxelize cfg res (p0 :: ps) edges).1.prims.toList =
       edges.zipIdx.flatMap (primsOf cfg.keepMap (p0 :: ps).toArray (cloudAabb p0 ps).1
         (gridParams res (cloudAabb p0 ps).1 (cloudAabb p0 ps).2).2.2.2
         (voxelize cfg res (p0 :: ps) edges).1.ni (voxelize cfg res (p0 :: ps) edges).1.nj) := by
-  obtain ⟨v1, v2, v3, v4, v5, v6, v7, v8⟩ := voxelize_plain cfg hmode res hres p0 ps edges hp
+  obtain ⟨v1, v2, v3, v4, v5, v6, v7, v8⟩ := voxelize_plain cfg hsi res hres p0 ps edges hp
   have hm := markAll_eq cfg res p0 ps edges
-  obtain ⟨s1, s2, s3, s4, s5⟩ := markFrom_spec cfg hmode.1 (p0 :: ps).toArray edges (cloudAabb p0 ps).1
+  obtain ⟨s1, s2, s3, s4, s5⟩ := markFrom_spec cfg hsi (p0 :: ps).toArray edges (cloudAabb p0 ps).1
     (gridParams res (cloudAabb p0 ps).1 (cloudAabb p0 ps).2).2.2.1 (gridParams res (cloudAabb p0 ps).1 (cloudAabb p0 ps).2).2.2.2
     (gridParams res (cloudAabb p0 ps).1 (cloudAabb p0 ps).2).1 (gridParams res (cloudAabb p0 ps).1 (cloudAabb p0 ps).2).2.1
   rw [← hm] at s1 s2 s3 s4 s5
   obtain ⟨_, _, _, t4⟩ := s5 v1
   rw [v7, v3, v4, s1, s2, t4]
 
-/-- **vox_params** (`PlainMode`, no panic): the grid of the returned volume is the one computed from the bounding box of
+/-- **vox_params** (`detect_self_intersections = false`, no panic): the grid of the returned volume is the one computed from the bounding box of
 the points, and every primitive passed the index lookup and the two `assert!(i < resolution[0] && j < resolution[1])`. -/
-theorem vox_params (cfg : Cfg) (hmode : PlainMode cfg) (res : Nat) (hres : 1 ≤ res) (p0 : V2 K) (ps : List (V2 K))
+theorem vox_params (cfg : Cfg) (hsi : cfg.detectSelfInter = false) (res : Nat) (hres : 1 ≤ res) (p0 : V2 K) (ps : List (V2 K))
     (edges : List (Nat × Nat)) (hp : (voxelize cfg res (p0 :: ps) edges).1.panic = false) :
     (voxelize cfg res (p0 :: ps) edges).1.ni = (gridParams res (cloudAabb p0 ps).1 (cloudAabb p0 ps).2).1 ∧
     (voxelize cfg res (p0 :: ps) edges).1.nj = (gridParams res (cloudAabb p0 ps).1 (cloudAabb p0 ps).2).2.1 ∧
@@ -163,9 +166,9 @@ theorem vox_params (cfg : Cfg) (hmode : PlainMode cfg) (res : Nat) (hres : 1 ≤
       AssertOk (voxelize cfg res (p0 :: ps) edges).1.ni (voxelize cfg res (p0 :: ps) edges).1.nj
         (gridPt (cloudAabb p0 ps).1 (gridParams res (cloudAabb p0 ps).1 (cloudAabb p0 ps).2).2.2.2 a)
         (gridPt (cloudAabb p0 ps).1 (gridParams res (cloudAabb p0 ps).1 (cloudAabb p0 ps).2).2.2.2 b) := by
-  obtain ⟨v1, v2, v3, v4, v5, v6, v7, v8⟩ := voxelize_plain cfg hmode res hres p0 ps edges hp
+  obtain ⟨v1, v2, v3, v4, v5, v6, v7, v8⟩ := voxelize_plain cfg hsi res hres p0 ps edges hp
   have hm := markAll_eq cfg res p0 ps edges
-  obtain ⟨s1, s2, s3, s4, s5⟩ := markFrom_spec cfg hmode.1 (p0 :: ps).toArray edges (cloudAabb p0 ps).1
+  obtain ⟨s1, s2, s3, s4, s5⟩ := markFrom_spec cfg hsi (p0 :: ps).toArray edges (cloudAabb p0 ps).1
     (gridParams res (cloudAabb p0 ps).1 (cloudAabb p0 ps).2).2.2.1 (gridParams res (cloudAabb p0 ps).1 (cloudAabb p0 ps).2).2.2.2
     (gridParams res (cloudAabb p0 ps).1 (cloudAabb p0 ps).2).1 (gridParams res (cloudAabb p0 ps).1 (cloudAabb p0 ps).2).2.1
   rw [← hm] at s1 s2 s3 s4 s5
@@ -194,8 +197,7 @@ theorem vox_fill_spec (cfg : Cfg) (hsi : cfg.detectSelfInter = false) (hflood : 
       (getC (voxelize cfg res (p0 :: ps) edges).1.ni (voxelize cfg res (p0 :: ps) edges).1.vals q = .surf ∨
        getC (voxelize cfg res (p0 :: ps) edges).1.ni (voxelize cfg res (p0 :: ps) edges).1.vals q = .outside ∨
        getC (voxelize cfg res (p0 :: ps) edges).1.ni (voxelize cfg res (p0 :: ps) edges).1.vals q = .inside) := by
-  have hmode : PlainMode cfg := ⟨hsi, Or.inr hcav⟩
-  obtain ⟨v1, v2, v3, v4, v5, v6, v7, v8⟩ := voxelize_plain cfg hmode res hres p0 ps edges hp
+  obtain ⟨v1, v2, v3, v4, v5, v6, v7, v8⟩ := voxelize_plain cfg hsi res hres p0 ps edges hp
   have hm := markAll_eq cfg res p0 ps edges
   obtain ⟨s1, s2, s3, s4, s5⟩ := markFrom_spec cfg hsi (p0 :: ps).toArray edges (cloudAabb p0 ps).1
     (gridParams res (cloudAabb p0 ps).1 (cloudAabb p0 ps).2).2.2.1 (gridParams res (cloudAabb p0 ps).1 (cloudAabb p0 ps).2).2.2.2
@@ -234,6 +236,14 @@ theorem vox_fill_spec (cfg : Cfg) (hsi : cfg.detectSelfInter = false) (hflood : 
   · rintro ⟨x, y⟩; exact ⟨fun z => x (a1.mp z), y⟩
   · rintro ⟨x, y⟩; exact ⟨fun z => x (a1.mpr z), y⟩
 
+/-- **vox_fuel_ok** (`detect_self_intersections = false`, every `FillMode`, no panic): the fuel the model gives to the
+`loop { .. }`s of `propagate_values` and to the inside/outside alternation of `detect_cavities` is never exhausted — the
+model's result is the result of the (terminating) Rust loops. -/
+theorem vox_fuel_ok (cfg : Cfg) (hsi : cfg.detectSelfInter = false) (res : Nat) (hres : 1 ≤ res) (p0 : V2 K) (ps : List (V2 K))
+    (edges : List (Nat × Nat)) (hp : (voxelize cfg res (p0 :: ps) edges).1.panic = false) :
+    (voxelize cfg res (p0 :: ps) edges).2 = true :=
+  (voxelize_plain cfg hsi res hres p0 ps edges hp).2.1
+
 end generic
 
 section field
@@ -259,11 +269,11 @@ private theorem grid_dist (S INV : K) (hSI : S * INV = 1) (hS : 0 < S) (hI : 0 <
       linear_combination |x - (o + (n : K) * S)| * hSI
     linarith
 
-/-- **vox_meets_imp_surface** (`PlainMode`, no panic, `resolution ≥ 2`, the points do not all coincide; lawful instance).
+/-- **vox_meets_imp_surface** (`detect_self_intersections = false`, every `FillMode`, no panic, `resolution ≥ 2`, the points do not all coincide; lawful instance).
 If a point `p` of primitive `k` (the closed segment `a b`) lies in the closed world-space square of an in-grid cell `c`,
 then `c` is `PrimitiveOnSurface` in the returned volume: the candidate range computed from the end-point cells contains
 every cell the segment meets, and the SAT test is complete. -/
-theorem vox_meets_imp_surface (hsq : LawfulSqrt sq) (htr : LawfulTrunc tr) (cfg : Cfg) (hmode : PlainMode cfg)
+theorem vox_meets_imp_surface (hsq : LawfulSqrt sq) (htr : LawfulTrunc tr) (cfg : Cfg) (hsi : cfg.detectSelfInter = false)
     (res : Nat) (hres : 2 ≤ res) (p0 : V2 K) (ps : List (V2 K)) (edges : List (Nat × Nat)) :
     letI := fieldNum K sq; letI := fieldCast tr
     ((cloudAabb p0 ps).1.x < (cloudAabb p0 ps).2.x ∨ (cloudAabb p0 ps).1.y < (cloudAabb p0 ps).2.y) →
@@ -275,8 +285,8 @@ theorem vox_meets_imp_surface (hsq : LawfulSqrt sq) (htr : LawfulTrunc tr) (cfg 
       getC (voxelize cfg res (p0 :: ps) edges).1.ni (voxelize cfg res (p0 :: ps) edges).1.vals c = .surf := by
   letI := fieldNum K sq; letI := fieldCast tr
   intro hext hp k e a b hk ha hb p hmem c hc hcell
-  obtain ⟨q1, q2, q3, q4, _⟩ := vox_params cfg hmode res (by omega) p0 ps edges hp
-  obtain ⟨_, hiff⟩ := vox_surface_iff cfg hmode res (by omega) p0 ps edges hp
+  obtain ⟨q1, q2, q3, q4, _⟩ := vox_params cfg hsi res (by omega) p0 ps edges hp
+  have hiff := vox_surface_iff cfg hsi res (by omega) p0 ps edges hp
   have hbb := cloudAabb_bounds sq p0 ps
   have hba := hbb a (List.mem_of_getElem? ha)
   have hbbb := hbb b (List.mem_of_getElem? hb)
@@ -304,11 +314,12 @@ theorem vox_meets_imp_surface (hsq : LawfulSqrt sq) (htr : LawfulTrunc tr) (cfg 
     range_complete sq tr htr _ _ _ _ n0x n0y n1x n1y t ht0 ht1 c hc hx hy,
     cellHit_complete sq tr hsq _ _ t ht0 ht1 c hx hy⟩
 
-/-- **vox_points_covered** (clause "every input point lies in a surface voxel"; `PlainMode`, no panic, `resolution ≥ 2`,
+/-- **vox_points_covered** (clause "every input point lies in a surface voxel"; `detect_self_intersections = false`,
+every `FillMode`, no panic, `resolution ≥ 2`,
 the points do not all coincide; lawful instance).  Every point `p` of every primitive (closed segment `a b`, in particular
 its two vertices) lies in the closed world-space square of an in-grid cell that is `PrimitiveOnSurface` in the returned
 volume — namely the cell `⌊(p − origin)/scale + ½⌋`, which is inside the grid because the `assert!`s passed. -/
-theorem vox_points_covered (hsq : LawfulSqrt sq) (htr : LawfulTrunc tr) (cfg : Cfg) (hmode : PlainMode cfg)
+theorem vox_points_covered (hsq : LawfulSqrt sq) (htr : LawfulTrunc tr) (cfg : Cfg) (hsi : cfg.detectSelfInter = false)
     (res : Nat) (hres : 2 ≤ res) (p0 : V2 K) (ps : List (V2 K)) (edges : List (Nat × Nat)) :
     letI := fieldNum K sq; letI := fieldCast tr
     ((cloudAabb p0 ps).1.x < (cloudAabb p0 ps).2.x ∨ (cloudAabb p0 ps).1.y < (cloudAabb p0 ps).2.y) →
@@ -320,7 +331,7 @@ theorem vox_points_covered (hsq : LawfulSqrt sq) (htr : LawfulTrunc tr) (cfg : C
       getC (voxelize cfg res (p0 :: ps) edges).1.ni (voxelize cfg res (p0 :: ps) edges).1.vals c = .surf := by
   letI := fieldNum K sq; letI := fieldCast tr
   intro hext hp k e a b hk ha hb p hmem
-  obtain ⟨q1, q2, q3, q4, q5⟩ := vox_params cfg hmode res (by omega) p0 ps edges hp
+  obtain ⟨q1, q2, q3, q4, q5⟩ := vox_params cfg hsi res (by omega) p0 ps edges hp
   have hbb := cloudAabb_bounds sq p0 ps
   have hba := hbb a (List.mem_of_getElem? ha)
   have hbbb := hbb b (List.mem_of_getElem? hb)
@@ -375,13 +386,13 @@ theorem vox_points_covered (hsq : LawfulSqrt sq) (htr : LawfulTrunc tr) (cfg : C
       show |qy - (tr (qy + 1 / 2) : K)| ≤ 1 / 2
       exact abs_le.mpr ⟨by linarith [htr.le (qy + 1 / 2) (by linarith)], by linarith [htr.lt (qy + 1 / 2) (by linarith)]⟩
   exact ⟨(tr (qx + 1 / 2), tr (qy + 1 / 2)), ⟨hokx, hoky⟩, hcell,
-    vox_meets_imp_surface sq tr hsq htr cfg hmode res hres p0 ps edges hext hp k e a b hk ha hb _ hmem' _ ⟨hokx, hoky⟩ hcell⟩
+    vox_meets_imp_surface sq tr hsq htr cfg hsi res hres p0 ps edges hext hp k e a b hk ha hb _ hmem' _ ⟨hokx, hoky⟩ hcell⟩
 
 /-- **vox_no_panic** (lawful instance): on a valid input — every primitive index in range, `resolution ≥ 2`, the points
-do not all coincide — `VoxelizedVolume::voxelize` hits none of its panic sites in `PlainMode`: the index computed for a
+do not all coincide — `VoxelizedVolume::voxelize` hits none of its panic sites (`detect_self_intersections = false`): the index computed for a
 vertex, `((p − origin)·inv_scale + ½) as u32`, is always `< resolution[axis]`, so both `assert!`s hold.  (This discharges
 the hypothesis `panic = false` of the other theorems.) -/
-theorem vox_no_panic (htr : LawfulTrunc tr) (cfg : Cfg) (hmode : PlainMode cfg)
+theorem vox_no_panic (htr : LawfulTrunc tr) (cfg : Cfg) (hsi : cfg.detectSelfInter = false)
     (res : Nat) (hres : 2 ≤ res) (p0 : V2 K) (ps : List (V2 K)) (edges : List (Nat × Nat)) :
     letI := fieldNum K sq; letI := fieldCast tr
     ((cloudAabb p0 ps).1.x < (cloudAabb p0 ps).2.x ∨ (cloudAabb p0 ps).1.y < (cloudAabb p0 ps).2.y) →
@@ -399,7 +410,7 @@ theorem vox_no_panic (htr : LawfulTrunc tr) (cfg : Cfg) (hmode : PlainMode cfg)
   rw [hvp, markAll_eq]
   unfold markFrom
   have hbb := cloudAabb_bounds sq p0 ps
-  apply markEdges_no_panic cfg hmode.1 _ _ _ _ (allocate_good _ _ _ _) rfl
+  apply markEdges_no_panic cfg hsi _ _ _ _ (allocate_good _ _ _ _) rfl
   intro ek hek
   obtain ⟨e, k⟩ := ek
   have he : e ∈ edges := List.mem_of_getElem? (List.mem_zipIdx_iff_getElem?.mp hek)
@@ -413,12 +424,13 @@ theorem vox_no_panic (htr : LawfulTrunc tr) (cfg : Cfg) (hmode : PlainMode cfg)
   have B := assert_ok_field sq tr htr res hres (cloudAabb p0 ps).1 (cloudAabb p0 ps).2 _ hbbb.1 hbbb.2 hext
   exact ⟨A.1, A.2, B.1, B.2⟩
 
-/-- **vox_surface_meets** (geometric soundness of the surface marking; `PlainMode`, no panic, `resolution ≥ 2`, the points
+/-- **vox_surface_meets** (geometric soundness of the surface marking; `detect_self_intersections = false`, every
+`FillMode`, no panic, `resolution ≥ 2`, the points
 do not all coincide; lawful instance).  If an in-grid cell `c` is `PrimitiveOnSurface` in the returned volume then some
 primitive `k` (segment `a b`) has a positive test on it, and — provided that segment is degenerate or longer than
 `DEFAULT_EPSILON` voxels — a point of the segment lies in the closed world-space square of `c`.  (For a non-degenerate
 segment of at most `ε` voxels the code drops the segment-normal axis: the statement is then only the AABB overlap.) -/
-theorem vox_surface_meets (hsq : LawfulSqrt sq) (htr : LawfulTrunc tr) (cfg : Cfg) (hmode : PlainMode cfg)
+theorem vox_surface_meets (hsq : LawfulSqrt sq) (htr : LawfulTrunc tr) (cfg : Cfg) (hsi : cfg.detectSelfInter = false)
     (res : Nat) (hres : 2 ≤ res) (p0 : V2 K) (ps : List (V2 K)) (edges : List (Nat × Nat)) :
     letI := fieldNum K sq; letI := fieldCast tr
     ((cloudAabb p0 ps).1.x < (cloudAabb p0 ps).2.x ∨ (cloudAabb p0 ps).1.y < (cloudAabb p0 ps).2.y) →
@@ -432,8 +444,8 @@ theorem vox_surface_meets (hsq : LawfulSqrt sq) (htr : LawfulTrunc tr) (cfg : Cf
             InCell (voxelize cfg res (p0 :: ps) edges).1.origin (voxelize cfg res (p0 :: ps) edges).1.scale c p) := by
   letI := fieldNum K sq; letI := fieldCast tr
   intro hext hp c hc hsurf
-  obtain ⟨q1, q2, q3, q4, _⟩ := vox_params cfg hmode res (by omega) p0 ps edges hp
-  obtain ⟨_, hiff⟩ := vox_surface_iff cfg hmode res (by omega) p0 ps edges hp
+  obtain ⟨q1, q2, q3, q4, _⟩ := vox_params cfg hsi res (by omega) p0 ps edges hp
+  have hiff := vox_surface_iff cfg hsi res (by omega) p0 ps edges hp
   obtain ⟨k, e, a, b, hk, ha, hb, _, hhit⟩ := (hiff c hc).mp hsurf
   refine ⟨k, e, a, b, hk, ha, hb, fun hlen => ?_⟩
   have hbb := cloudAabb_bounds sq p0 ps
@@ -507,14 +519,13 @@ example : LawfulSqrt Real.sqrt ∧ LawfulTrunc (K := ℝ) (fun x => ⌊x⌋.toNa
 /-- all hypotheses of the theorems are jointly satisfiable: the 4×2 rectangle at resolution 5, flood fill, map kept -/
 example :
     letI := fieldNum ℝ Real.sqrt; letI := fieldCast (K := ℝ) (fun x => ⌊x⌋.toNat)
-    PlainMode ⟨true, false, false, true⟩ ∧
     ((cloudAabb (⟨0, 0⟩ : V2 ℝ) [⟨4, 0⟩, ⟨4, 2⟩, ⟨0, 2⟩]).1.x < (cloudAabb (⟨0, 0⟩ : V2 ℝ) [⟨4, 0⟩, ⟨4, 2⟩, ⟨0, 2⟩]).2.x ∨
      (cloudAabb (⟨0, 0⟩ : V2 ℝ) [⟨4, 0⟩, ⟨4, 2⟩, ⟨0, 2⟩]).1.y < (cloudAabb (⟨0, 0⟩ : V2 ℝ) [⟨4, 0⟩, ⟨4, 2⟩, ⟨0, 2⟩]).2.y) ∧
     (∀ e ∈ [(0, 1), (1, 2), (2, 3), (3, 0)], e.1 < ((⟨0, 0⟩ : V2 ℝ) :: [⟨4, 0⟩, ⟨4, 2⟩, ⟨0, 2⟩]).length ∧
       e.2 < ((⟨0, 0⟩ : V2 ℝ) :: [⟨4, 0⟩, ⟨4, 2⟩, ⟨0, 2⟩]).length) ∧
     (voxelize ⟨true, false, false, true⟩ 5 ((⟨0, 0⟩ : V2 ℝ) :: [⟨4, 0⟩, ⟨4, 2⟩, ⟨0, 2⟩]) [(0, 1), (1, 2), (2, 3), (3, 0)]).1.panic = false := by
   letI := fieldNum ℝ Real.sqrt; letI := fieldCast (K := ℝ) (fun x => ⌊x⌋.toNat)
-  have h1 : PlainMode ⟨true, false, false, true⟩ := ⟨rfl, Or.inr rfl⟩
+  have h1' : (⟨true, false, false, true⟩ : Cfg).detectSelfInter = false := rfl
   have h2 : ((cloudAabb (⟨0, 0⟩ : V2 ℝ) [⟨4, 0⟩, ⟨4, 2⟩, ⟨0, 2⟩]).1.x < (cloudAabb (⟨0, 0⟩ : V2 ℝ) [⟨4, 0⟩, ⟨4, 2⟩, ⟨0, 2⟩]).2.x ∨
      (cloudAabb (⟨0, 0⟩ : V2 ℝ) [⟨4, 0⟩, ⟨4, 2⟩, ⟨0, 2⟩]).1.y < (cloudAabb (⟨0, 0⟩ : V2 ℝ) [⟨4, 0⟩, ⟨4, 2⟩, ⟨0, 2⟩]).2.y) := by
     left
@@ -523,5 +534,5 @@ example :
   have h3 : ∀ e ∈ [(0, 1), (1, 2), (2, 3), (3, 0)], e.1 < ((⟨0, 0⟩ : V2 ℝ) :: [⟨4, 0⟩, ⟨4, 2⟩, ⟨0, 2⟩]).length ∧
       e.2 < ((⟨0, 0⟩ : V2 ℝ) :: [⟨4, 0⟩, ⟨4, 2⟩, ⟨0, 2⟩]).length := by
     intro e he; simp at he; rcases he with rfl | rfl | rfl | rfl <;> simp
-  exact ⟨h1, h2, h3, vox_no_panic Real.sqrt _ lawfulTrunc_floor _ h1 5 (by norm_num) _ _ _ h2 h3⟩
+  exact ⟨h2, h3, vox_no_panic Real.sqrt _ lawfulTrunc_floor _ h1' 5 (by norm_num) _ _ _ h2 h3⟩
 end C18
